@@ -345,7 +345,9 @@ func (p *player) Bet(chips int64) error {
 
 	p.pay(chips, true)
 
-	p.game.GetState().Status.PreviousRaiseSize = chips
+	// The size of the bet is what was actually put in: an amount above the
+	// stack is an all-in for less and must not inflate the minimum raise
+	p.game.GetState().Status.PreviousRaiseSize = p.state.Wager
 
 	p.game.UpdateLastAction(p.idx, "bet", chips)
 
